@@ -425,7 +425,7 @@ def verify_function(world, contract, report=None, only_cfg=None, scope=None):
                             ctx.oblige('p%s/accepts:no-raise-on-accepted-domain(%s@%s)' % (pid, outcome[1], outcome[2]),
                                        Not(acc), 'accepts')
                         for label, f in contract.exc_post(a, cfg, ctx):
-                            ctx.oblige('p%s/signals:%s' % (pid, label), f, 'exc-post')
+                            ctx.oblige('p%s/signals:%s' % (pid, label), f, 'exc-post', meta={'raised': outcome[1], 'site': str(outcome[2])})
                 except Unsupported as e:
                     rep.unsupported.append((cname, 'contract evaluation: ' + str(e)))
                 except Exception as e:
